@@ -1,10 +1,13 @@
 #!/bin/bash
 # Applies a seeded change to /repo, runs the existing suite and the given checks against it, and always reverts.
+# Evidence files are saved before and restored afterwards: committed evidence must come from the unchanged tree.
 # usage: mutcheck.sh <patch.diff> <prop>...   (VERIF_TIER / VERIF_SEED honoured)
 set -u
 PATCH="$1"; shift
 if [ -n "$(git -C /repo status --porcelain)" ]; then echo "/repo not clean"; exit 2; fi
-trap 'git -C /repo checkout -- . ; git -C /repo status --porcelain' EXIT
+EVB=$(mktemp -d /verif/bin/evidence-backup.XXXXXX)
+cp -a /verif/evidence/. "$EVB"/ 2>/dev/null
+trap 'git -C /repo checkout -- . ; git -C /repo status --porcelain; cp -a "$EVB"/. /verif/evidence/ 2>/dev/null; rm -rf "$EVB"' EXIT
 git -C /repo apply "$PATCH" || { echo "patch does not apply"; exit 2; }
 echo "== existing suite with the change"
 (cd /repo && env -u GOFLAGS GOPROXY=off GOSUMDB=off GOTOOLCHAIN=local go test -vet=off -count=1 ./... 2>&1 | grep -v "no test files" | sed 's/^/   /')
